@@ -871,6 +871,70 @@ func closeNotify(m *meta, rng *rand.Rand, round int) {
 	m.count("close_notify_rounds")
 }
 
+// closeDrainNotifyProbe (C06): a SetAsync accepted while Close is in progress is applied by the write worker's
+// FINAL drain; if that write evicts an entry after the notifier goroutine has already taken its own closeCh branch
+// and exited, the eviction is never reported (model: NotifierProofs staged_after_exit_lost). Deterministic through
+// the scheduler hooks (the worker is adopted; the notifier runs freely and exits as soon as closeCh is closed).
+func closeDrainNotifyProbe(m *meta) {
+	ctx := "close-drain-notify probe"
+	watch(ctx)
+	defer unwatch()
+	var mu sync.Mutex
+	seen := map[int]int{}
+	kioshun.VerifSchedReset(true, 300*time.Millisecond)
+	kioshun.VerifSchedAdoptWorkers(true)
+	c, err := kioshun.New[int, int](kioshun.Config{MaxSize: 2, ShardCount: 1, EvictionPolicy: kioshun.LRU, WriteBufferSize: 4, WriteBatchSize: 2},
+		kioshun.WithOnRemove(func(k, v int, r kioshun.RemovalReason) { mu.Lock(); seen[k]++; mu.Unlock() }))
+	must(err)
+	for i := 0; i < 5000 && !kioshun.VerifSchedKnown(1000); i++ {
+		time.Sleep(100 * time.Microsecond)
+	}
+	kioshun.VerifSchedAdoptWorkers(false)
+	if !kioshun.VerifSchedKnown(1000) || stepUntil(1000, 301) != 301 {
+		m.count("close_drain_setup_failed")
+		kioshun.VerifSchedRelease()
+		c.Close()
+		return
+	}
+	c.Set(1, 1, kioshun.NoExpiration)
+	c.Set(2, 2, kioshun.NoExpiration)
+	// P: SetAsync(3) cannot apply inline (the harness holds the drain token), passes the closed checks, parks before reserving
+	c.VerifHoldDrain(0, true)
+	var perr error
+	kioshun.VerifSchedSpawn(2, func() { perr = c.SetAsync(3, 3, kioshun.NoExpiration) })
+	p := stepUntil(2, 101)
+	c.VerifHoldDrain(0, false)
+	if p != 101 {
+		m.count("close_drain_setup_failed")
+		kioshun.VerifSchedRelease()
+		c.Close()
+		return
+	}
+	// Close: flush (the closer drains its own barrier), broadcast; then it waits for the workers
+	kioshun.VerifSchedSpawn(3, func() { c.Close() })
+	if q := stepUntil(3, 341); q != 341 {
+		m.count("close_drain_setup_failed")
+		kioshun.VerifSchedRelease()
+		c.Close()
+		return
+	}
+	time.Sleep(20 * time.Millisecond) // the free-running notifier takes its closeCh branch and exits
+	stepUntil(2, -100)               // P reserves, publishes, returns nil: accepted during shutdown
+	stepUntil(1000, -100)            // the worker's final drain applies Set(3): the LRU entry is evicted
+	stepUntil(3, -100)               // Close returns
+	kioshun.VerifSchedRelease()
+	time.Sleep(5 * time.Millisecond)
+	mu.Lock()
+	n1, n2 := seen[1], seen[2]
+	mu.Unlock()
+	if perr == nil && n1+n2 == 0 {
+		m.known("KNOWN-FINDING: property=C06 a SetAsync accepted while Close is in progress is applied by the write worker's final drain and evicts an entry after the notifier goroutine has already exited: that capacity eviction is never reported to OnRemove/OnEvict (replayed on the real code through the scheduler hooks; model NotifierProofs.staged_after_exit_lost)")
+	} else {
+		m.count("close_drain_not_reproduced")
+		m.sample(fmt.Sprintf("close-drain-notify probe: SetAsync err=%v notifications key1=%d key2=%d", perr, n1, n2))
+	}
+}
+
 // flickerProbe replays the schedule of C02.v's c02_atomic_refuted on the real cache through the yield hooks:
 // a reader parked after loading a matching tag, the key deleted and re-inserted into the same slot, the
 // writer parked between publish's item store and tag store. Finding F10 when it reproduces.
@@ -1213,6 +1277,7 @@ func streamConc(o opts) {
 	}
 	flickerProbe(m)
 	listenerCloseProbe(m)
+	closeDrainNotifyProbe(m)
 	w.Close()
 	m.Traces, m.Ops = w.traces, w.ops+int(m.Dist["stress_calls"])
 	m.write(o.out)
